@@ -30,7 +30,7 @@ def evaluate(src, extra_props=()):
     out_dir = os.path.join(VERIF, "seeded", name)
     os.makedirs(out_dir, exist_ok=True)
     for f in ("patch.diff", "demo.py", "notes.md"):
-        if os.path.exists(os.path.join(src, f)):
+        if os.path.exists(os.path.join(src, f)) and os.path.abspath(os.path.join(src, f)) != os.path.abspath(os.path.join(out_dir, f)):
             shutil.copy(os.path.join(src, f), os.path.join(out_dir, f))
     scratch = tempfile.mkdtemp(prefix="vfseed_", dir="/tmp")
     meta = {"id": name, "breaks_property": prop, "ran": []}
